@@ -140,8 +140,11 @@ def renderings(case):
         v3_lines.append("%s = %s(%s)" % (name, c["cmd"], ", ".join("%s = %s" % (a, c12.fmt(v)) for a, v in args)))
         if c["cmd"] in V2_OF and (st_.get("v2", True) or c["cmd"] == "EEMSRead"):
             omit = c["cmd"] == "EEMSRead" and c["name"] in rename
-            v2_lines.append(v2_line(V2_OF[c["cmd"]], name, args, new_field=not omit,
-                                    out_file="ignored_%d.csv" % k if st_.get("out_file") else None, pos=st_.get("pos")))
+            line = v2_line(V2_OF[c["cmd"]], name, args, new_field=not omit and not st_.get("assigned"),
+                           out_file="ignored_%d.csv" % k if st_.get("out_file") else None, pos=st_.get("pos"))
+            if st_.get("assigned") and not omit:
+                line = "%s = %s" % (name, line)  # an EEMS 2.0 name used with an explicit result name
+            v2_lines.append(line)
         else:
             v2_lines.append(v3_lines[-1])
     return "\n".join(v2_lines) + "\n", "\n".join(v3_lines) + "\n", names
@@ -151,13 +154,16 @@ def check_model(case, rec):
     from mpilot.program import EEMS_CSV_LIBRARIES, Program
 
     v2_text, v3_text, names = renderings(case)
-    if not any(l.split("(")[0].strip() in EEMS2 for l in v2_text.splitlines()):
+    if not any(l.split("(")[0].split("=")[-1].strip() in EEMS2 for l in v2_text.splitlines()):
         rec.exclude("no_v2_command_in_file")
         return []
     tmp = tempfile.mkdtemp(prefix="vcheck-c16-")
     fails = []
     try:
         M.write_table(case["model"], os.path.join(tmp, "input.csv"))
+        from ..history import maybe_earlier_v2_load
+
+        maybe_earlier_v2_load(v3_text)
         try:
             p3 = Program.from_source(v3_text, libraries=EEMS_CSV_LIBRARIES, working_dir=tmp)
         except Exception as exc:
@@ -168,6 +174,8 @@ def check_model(case, rec):
         except Exception as exc:
             return [Failure("v2_load_raises:%s" % type(exc).__name__, "%s\n%s" % (sstr(exc)[:200], v2_text))]
         mixed = any("=" in l.split("(")[0] for l in v2_text.splitlines())
+        if not any(l.split("(")[0].strip() in EEMS2 for l in v2_text.splitlines()):
+            rec.label("file:no_bare_command")
         omitted = any(l.startswith("READ(") and "NewFieldName" not in l for l in v2_text.splitlines())
         outfile = "OutFileName" in v2_text and "ignored_" in v2_text
         rec.label("file:" + ("mixed" if mixed else "pure_v2"))
@@ -216,7 +224,12 @@ def model_cases(draw):
     styles = draw(st.lists(st.fixed_dictionaries({
         "v2": st.sampled_from([True, True, True, not mixed or False]) if mixed else st.just(True),
         "omit_new_field": st.booleans(), "out_file": st.sampled_from([False, False, True]),
-        "pos": st.one_of(st.none(), st.lists(st.integers(0, 6), min_size=2, max_size=2))}), min_size=3, max_size=10))
+        "pos": st.one_of(st.none(), st.lists(st.integers(0, 6), min_size=2, max_size=2)),
+        "assigned": st.sampled_from([False, False, True])}), min_size=3, max_size=10))
+    if draw(st.integers(0, 3)) == 0:
+        for s_ in styles:  # a file in which no command is written bare
+            s_["assigned"] = True
+            s_["omit_new_field"] = False
     return {"model": model, "styles": styles}
 
 
